@@ -294,7 +294,10 @@ func runC11(c *Ctx) {
 				return
 			}
 			g := staticCallee(cc)
-			if g == nil || len(cc.Args) == 0 || describe(cc.Args[0]) != "next#2" {
+			if g == nil || len(cc.Args) == 0 {
+				return
+			}
+			if a0 := describe(cc.Args[0]); a0 != "next#2" && a0 != "strings.ToUpper(next#2)" {
 				return
 			}
 			switch qualFuncName(g) {
